@@ -313,9 +313,9 @@ Proof. revert i; induction vs as [|v vs IH]; intros i; cbn; [reflexivity|]. rewr
 Lemma row_of_opoint_of r : List.length r = 6%nat -> row_of (opoint_of r) = r.
 Proof. intros _. unfold row_of, opoint_of; cbn [op_coord op_color]. apply firstn_skipn. Qed.
 
-Lemma import_export_points pts :
+Lemma import_export_points_repaired pts :
   match pts with Some rows => forallb (fun r => Nat.eqb (List.length r) 6) rows = true | None => True end ->
-  bind (export_points pts) import_points = Ok pts.
+  bind (export_points pts) import_points_repaired = Ok pts.
 Proof.
   destruct pts as [rows|]; cbn; [|reflexivity]. intros R.
   rewrite (export_points_from_spec 0 rows R). cbn.
@@ -408,8 +408,6 @@ Section RoundTrip.
   Variable of_rotvec : vec -> quat.
 
   Notation export := (export to_rotvec).
-  Notation import_ := (import_ of_rotvec).
-  Notation roundtrip := (roundtrip to_rotvec of_rotvec).
 
   Variable d : dataset.
   Hypothesis R : in_range d = true.
@@ -469,11 +467,14 @@ Section RoundTrip.
     flat_map (fun im => match feature_entry d (i_name im) with Some (_, Some a) => [(i_name im, a)] | _ => [] end)
              (d_images d).
 
+  (* the re-imported point cloud depends on how the importer orders the ids: a parameter here *)
+  Variable pts' : option (list (list Q)).
+
   Definition back : dataset :=
     {| d_cameras := map (fun ic => (fst ic, icam (ecam (snd ic)))) (d_cameras d);
        d_images := imgs_from 0 (d_images d);
        d_traj := traj_from 0 (d_images d);
-       d_points := d_points d;
+       d_points := pts';
        d_keypoints := kp_back;
        d_descriptors := ds_back;
        d_matches := import_matches (export_matches d) |}.
@@ -488,16 +489,17 @@ Section RoundTrip.
     reflexivity.
   Qed.
 
-  Theorem roundtrip_total : roundtrip d = Ok back.
+  Theorem roundtrip_gen_total ipts :
+    bind (export_points (d_points d)) ipts = Ok pts' ->
+    bind (export d) (import_gen of_rotvec ipts) = Ok back.
   Proof.
-    destruct range_facts as (C & _ & NI & P & PT & _).
-    unfold MOpensfm.roundtrip, MOpensfm.export, export_cameras.
+    intros IP. destruct range_facts as (C & _ & NI & P & PT & _).
+    unfold MOpensfm.export, export_cameras.
     rewrite (mapM_ok _ (fun ic => (fst ic, ecam (snd ic)))).
     2:{ intros ic I. rewrite (export_camera_in_range _ (C ic I)). reflexivity. }
     cbn [bind].
-    pose proof (import_export_points (d_points d) PT) as IP.
     destruct (export_points (d_points d)) as [pts|e] eqn:EP; [|discriminate IP]. cbn [bind] in IP |- *.
-    unfold MOpensfm.import_, import_cameras; cbn [o_cameras o_shots o_points o_features o_matches].
+    unfold MOpensfm.import_gen, import_cameras; cbn [o_cameras o_shots o_points o_features o_matches].
     rewrite (mapM_ok _ (fun ic => (fst ic, icam (snd ic))))
       by (intros x Ix; apply in_map_iff in Ix; destruct Ix as (ic & <- & _); reflexivity).
     cbn [bind]. unfold export_shots. rewrite (fold_insert_all i_name (export_shot to_rotvec d) (d_images d) NI).
@@ -586,7 +588,7 @@ Section RoundTrip.
   Qed.
 
   (* ---- 4. points: the same sequence, whatever its length *)
-  Theorem points_preserved : d_points back = d_points d.
+  Theorem points_back : d_points back = pts'.
   Proof. reflexivity. Qed.
 
   (* ---- 5. keypoints and descriptors, by image name *)
@@ -631,3 +633,135 @@ Section RoundTrip.
     rewrite forallb_forall in SM. specialize (SM e I). rewrite E in SM. cbn in SM. congruence.
   Qed.
 End RoundTrip.
+
+(* ------------------------------------------------------------------ the string order of the ids (the code as it is) *)
+From Coq Require Import Sorting.Permutation.
+
+(* what `sorted(ids as strings)` does to a sequence keyed "0", "1", ...: a fixed permutation of it *)
+Definition string_order_perm {V} (vs : list V) : list V := map snd (ksort (skeyed 0 vs)).
+
+Lemma kinsert_map_vals {V W} (g : V -> W) (x : string * V) (l : list (string * V)) :
+  kinsert (fst x, g (snd x)) (map (fun kv => (fst kv, g (snd kv))) l)
+  = map (fun kv => (fst kv, g (snd kv))) (kinsert x l).
+Proof.
+  induction l as [|y l IH]; cbn [kinsert map fst snd]; [reflexivity|].
+  destruct (sleb (fst x) (fst y)); cbn [map fst snd]; [reflexivity|]. rewrite IH. reflexivity.
+Qed.
+
+Lemma ksort_map_vals {V W} (g : V -> W) (l : list (string * V)) :
+  ksort (map (fun kv => (fst kv, g (snd kv))) l) = map (fun kv => (fst kv, g (snd kv))) (ksort l).
+Proof.
+  induction l as [|x l IH]; cbn [ksort map]; [reflexivity|]. rewrite IH. apply (kinsert_map_vals g x).
+Qed.
+
+Lemma skeyed_map_vals {V W} (g : V -> W) i (vs : list V) :
+  skeyed i (map g vs) = map (fun kv => (fst kv, g (snd kv))) (skeyed i vs).
+Proof.
+  unfold skeyed. revert i; induction vs as [|v vs IH]; intros i; cbn; [reflexivity|]. rewrite IH. reflexivity.
+Qed.
+
+Lemma string_order_perm_map {V W} (g : V -> W) (vs : list V) :
+  string_order_perm (map g vs) = map g (string_order_perm vs).
+Proof.
+  unfold string_order_perm. rewrite skeyed_map_vals, ksort_map_vals, !map_map. reflexivity.
+Qed.
+
+Lemma kinsert_perm {V} (x : string * V) l : Permutation (kinsert x l) (x :: l).
+Proof.
+  induction l as [|y l IH]; cbn [kinsert]; [apply Permutation_refl|].
+  destruct (sleb (fst x) (fst y)); [apply Permutation_refl|].
+  eapply perm_trans; [apply perm_skip; exact IH|apply perm_swap].
+Qed.
+
+Lemma ksort_perm {V} (l : list (string * V)) : Permutation (ksort l) l.
+Proof.
+  induction l as [|x l IH]; cbn [ksort]; [constructor|].
+  eapply perm_trans; [apply kinsert_perm|apply perm_skip; exact IH].
+Qed.
+
+Lemma map_snd_skeyed {V} i (vs : list V) : map snd (skeyed i vs) = vs.
+Proof. unfold skeyed. rewrite map_map. cbn. apply map_snd_keyed. Qed.
+
+(* the multiset of elements is preserved, whatever the length *)
+Lemma string_order_perm_Permutation {V} (vs : list V) : Permutation (string_order_perm vs) vs.
+Proof.
+  unfold string_order_perm. rewrite <- (map_snd_skeyed 0 vs) at 2.
+  apply Permutation_map, ksort_perm.
+Qed.
+
+(* up to ten elements nothing moves ("0" < "1" < ... < "9" as strings too) *)
+Lemma string_order_perm_upto_ten {V} (vs : list V) : (List.length vs <= 10)%nat -> string_order_perm vs = vs.
+Proof.
+  intros L. do 11 (destruct vs as [|? vs]; [vm_compute; reflexivity|]). cbn in L. lia.
+Qed.
+
+(* beyond ten the ids do move (the values may of course coincide) *)
+Lemma string_order_ids_beyond_ten n : (10 < n)%nat -> string_order_perm (seq 0 n) <> seq 0 n.
+Proof.
+  intros L E. apply (sort_string_breaks (seq 0 n)); [rewrite seq_length; exact L|].
+  (* the sorted keyed list is determined by its values, because key i carries value i *)
+  assert (K : forall l : list (string * nat), (forall kv, In kv l -> fst kv = show_nat (snd kv)) ->
+              l = map (fun v => (show_nat v, v)) (map snd l)).
+  { induction l as [|[k v] l IH]; cbn; intros H; [reflexivity|].
+    pose proof (H (k, v) (or_introl eq_refl)) as Ek. cbn in Ek. subst k. f_equal.
+    apply IH. intros; apply H; right; assumption. }
+  assert (S : forall i m kv, In kv (skeyed i (seq i m)) -> fst kv = show_nat (snd kv)).
+  { intros i m; revert i; induction m as [|m IH]; intros i kv; cbn; [tauto|].
+    intros [<-|I]; [reflexivity|]. apply (IH (S i)). exact I. }
+  rewrite (K (ksort (skeyed 0 (seq 0 n)))).
+  2:{ intros kv I. apply (S 0%nat n). eapply Permutation_in; [apply ksort_perm|exact I]. }
+  unfold string_order_perm in E. rewrite E.
+  symmetry. rewrite (K (skeyed 0 (seq 0 n)) (S 0%nat n)) at 1. rewrite map_snd_skeyed. reflexivity.
+Qed.
+
+Lemma ksort_In {V} (y : string * V) l : In y (ksort l) <-> In y l.
+Proof.
+  split; intro I; (eapply Permutation_in; [|exact I]); [apply ksort_perm|apply Permutation_sym, ksort_perm].
+Qed.
+
+(* export then the as-is import of the points: the rows in the string order of their ids *)
+Lemma import_export_points pts :
+  match pts with Some rows => forallb (fun r => Nat.eqb (List.length r) 6) rows = true | None => True end ->
+  bind (export_points pts) import_points = Ok (option_map string_order_perm pts).
+Proof.
+  destruct pts as [rows|]; cbn; [|reflexivity]. intros R.
+  rewrite (export_points_from_spec 0 rows R). cbn [bind import_points].
+  assert (E : map (fun kp : string * opoint => row_of (snd kp)) (ksort (skeyed 0 (map opoint_of rows)))
+              = string_order_perm rows).
+  { rewrite <- (map_map snd row_of). change (map snd (ksort (skeyed 0 (map opoint_of rows))))
+      with (string_order_perm (map opoint_of rows)).
+    rewrite string_order_perm_map, map_map.
+    assert (F : forall r, In r (string_order_perm rows) -> List.length r = 6%nat).
+    { intros r I. apply (Permutation_in _ (string_order_perm_Permutation rows)) in I.
+      rewrite forallb_forall in R. apply Nat.eqb_eq. apply R. exact I. }
+    induction (string_order_perm rows) as [|r l IH]; cbn [map]; [reflexivity|].
+    rewrite row_of_opoint_of by (apply F; left; reflexivity).
+    rewrite IH by (intros; apply F; right; assumption). reflexivity. }
+  rewrite E. cbn [option_map].
+  destruct (string_order_perm rows) as [|r l] eqn:SP; [reflexivity|].
+  unfold shape_ok. replace (forallb (has_len 6) (r :: l)) with true; [reflexivity|].
+  symmetry. apply forallb_forall. intros x I. unfold has_len.
+  rewrite forallb_forall in R. apply R.
+  apply (Permutation_in _ (string_order_perm_Permutation rows)). rewrite SP. exact I.
+Qed.
+
+Section Instances.
+  Variable to_rotvec : quat -> vec.
+  Variable of_rotvec : vec -> quat.
+  Variable d : dataset.
+  Hypothesis R : in_range d = true.
+
+  Lemma points_in_range :
+    match d_points d with Some rows => forallb (fun r => Nat.eqb (List.length r) 6) rows = true | None => True end.
+  Proof. destruct (range_facts d R) as (_ & _ & _ & _ & PT & _). exact PT. Qed.
+
+  (* the code as it is *)
+  Theorem roundtrip_total :
+    roundtrip to_rotvec of_rotvec d = Ok (back to_rotvec of_rotvec d (option_map string_order_perm (d_points d))).
+  Proof. apply roundtrip_gen_total; [exact R|]. apply import_export_points, points_in_range. Qed.
+
+  (* with the numeric-order repair *)
+  Theorem roundtrip_repaired_total :
+    roundtrip_repaired to_rotvec of_rotvec d = Ok (back to_rotvec of_rotvec d (d_points d)).
+  Proof. apply roundtrip_gen_total; [exact R|]. apply import_export_points_repaired, points_in_range. Qed.
+End Instances.
